@@ -11,12 +11,12 @@ ASSUMPTIONS = ["Scapy's encoding of option tuples is modelled (SOpt.encode) and 
 NONTRIVIAL_FLOOR = 2000
 
 
-def mk(r, ver, mss, flags=2, frag_fl=2, extra=b""):
+def mk(r, ver, mss, flags=2, frag_fl=2, extra=b"", ipopts=b""):
     opts = (b"\x02\x04" + struct.pack("!H", mss) if mss is not None else b"") + extra
     opts += b"\x01" * (-len(opts) % 4)
     tcp = wiregen.tcp_header(r, flags=flags, opts=opts, res=0, seq=1, ack=0, urp=0)
     if ver == "4":
-        return wiregen.ipv4(r, tcp, ipopts=b"", fl=frag_fl, ident=1)
+        return wiregen.ipv4(r, tcp, ipopts=ipopts, fl=frag_fl, ident=1)
     return wiregen.ipv6(r, tcp)
 
 
@@ -32,6 +32,10 @@ def run(ctx):
     for mss in msss:
         for ver in "46":
             ops.append("fpmtu\t%s\t%s\t%s" % (ver, mk(r, ver, mss, flags=r.choice([2, 0x12])).hex(), r.choice(dbs + (["%d" % (mss + 40), "%d,%d" % (mss + 60, mss + 40)] if 0 < mss <= 65535 - 60 else []))))
+    # IPv4 headers with options (IHL 6..15): the MTU is still MSS + 40
+    for n in range(0, 11):
+        for mss in (1460, 1452, 536, 1460 - 4 * n):
+            ops.append("fpmtu\t4\t%s\t%s" % (mk(r, "4", mss, ipopts=b"\x01" * (4 * n)).hex(), "1500,1492,%d,%d" % (mss + 40, mss + 40 + 4 * n)))
     for flags in range(512):
         ops.append("fpmtu\t4\t%s\t1500" % mk(r, "4", 1460, flags=flags).hex())
     for fl in range(8):
@@ -42,7 +46,7 @@ def run(ctx):
         ops.append("fpmtu\t%s\t%s\t1500" % (ver, mk(r, ver, 0, extra=b"\x02\x04\x05\xb4").hex()))
         ops.append("fpmtu\t%s\t%s\t1500" % (ver, mk(r, ver, None, extra=b"\x02\x03\x05\x01").hex()))    # malformed MSS
     ctx.correspond(ops, nontrivial=lambda l, a: a.startswith("mtu="), label="fpmtu", tagger=lambda l, a: "ERR" if a.startswith("ERR") else ("hit" if "match=none" not in a else "miss"))
-    ctx.notes["exhaustive_subdomains"] = ["all 512 TCP flag values", "all 8 IPv4 flag combinations"] + (["all MSS 0..65535 x both versions"] if not ctx.quick() else [])
+    ctx.notes["exhaustive_subdomains"] = ["all 512 TCP flag values", "all 8 IPv4 flag combinations", "IPv4 header lengths 20..60"] + (["all MSS 0..65535 x both versions"] if not ctx.quick() else [])
     # impersonation
     ops = []
     pool = ["N", "N", "S", "W7", "W0", "T5.0", "T0.9", "K8", "K16", "E", "R77.0", "R254.2", "M1460", "M0", "M536", "M65535"]
